@@ -39,6 +39,10 @@ T = {
  ("C18","b"): ("caught_as_built","C18","C18:via_stale_cleanup:two_authorities:Clients1+1:DeadMetaOnly","needs a client (cleanup keyed on meta.json) next to a server: the client scenarios that were added before this change arrived report it; not swallowed by the known findings because no acquisition lies inside a re-validate..rename window"),
  ("C20","a"): ("caught_as_built","C20","C20:bound:task_preview",""),
  ("C20","b"): ("caught_as_built","C20","C20:lookup:index_of_seq:out_of_range",""),
+ ("C17","a"): ("caught_after_strengthening","C17","C17:task_stored_output","missed: the background-task pump drops reads whose preview comes out empty; real task runs only used the default preview limit. Four task commands with preview limits 0, 1 and 2 (multi-byte output) were added; the stored output must be what the command wrote"),
+ ("C17","b"): ("caught_as_built","C17","C17:lifecycle:cancel_order",""),
+ ("C19","a"): ("caught_after_strengthening","C19","C19:secret_in_doctor:malformed_global_semicolon_after_key","missed: every configuration layer in the product was well-formed. Three layers whose line with the inline key does not parse were added as secret sources (the diagnostics may describe the error, not quote the line)"),
+ ("C19","b"): ("caught_as_built","C19","C19:secret_in_frames:secret_header_and_key / C19:secret_in_snapshot",""),
 }
 def main():
     for (pid,var),(status,by,sig,note) in T.items():
